@@ -25,6 +25,7 @@ import BW.Proofs.PlannerStep11
 import BW.Proofs.Projection
 import BW.Proofs.Hooks
 import BW.Proofs.HooksHead
+import BW.Proofs.OnePerAssignment
 
 namespace BW.Props.C03
 open BW.Model BW.Spec BW.Proofs.Query BW.Proofs.Planner BW.Proofs.Store BW.Proofs.ClauseOrder
@@ -181,6 +182,35 @@ theorem one_clause_is_one_join {F : Facts} (hF : Facts.WF F = true) {gs : List Q
 theorem reference_extends_to_object_bounds (scan : List Triple) (glo ghi : Option Int) (cs : List Clause)
     (h : ∀ c ∈ cs, c.oLowerAlias = [] ∧ c.oUpperAlias = []) : solutionsO scan glo ghi cs = solutions scan glo ghi cs :=
   solutionsO_eq scan glo ghi cs h
+
+/-! ### One row per assignment -/
+
+/-- The property counts solutions by assignment, the reference by combination of matching triples. They are the
+    same count wherever the row shows which triple each clause matched: over a scan in which no triple occurs
+    twice (graphs hold sets, and no triple is stored in two listed graphs) the solutions of a pattern of
+    mandatory clauses each of whose positions is a constant, a binding / alias, or `"id"@[?t]` are pairwise
+    different rows (anchors compared as instants). Together with `select_pattern_eq_solutions` (the planner's
+    table and the solutions are the same set): every assignment is returned, nothing else is, and the
+    reference lists each once. (Clauses with an interval whose anchor is not shown — `"id"@[lo,hi]` without
+    `AT` — and OPTIONAL clauses are outside: the property leaves their multiplicities open.) -/
+theorem one_row_per_assignment (scan : List Triple) (hs : BW.Proofs.OnePerAssignment.ScanDistinct scan) (glo ghi : Option Int)
+    (cs : List Clause) (hd : ∀ c ∈ cs, BW.Proofs.OnePerAssignment.Determined c ∧ c.optional = false) :
+    (solutions scan glo ghi cs).Pairwise fun a b => ¬ BW.Proofs.ClauseOrder.RowEq a b :=
+  BW.Proofs.OnePerAssignment.solutions_distinct scan hs glo ghi cs hd
+
+/-- … because such a clause's row determines the triple it matched. -/
+theorem row_determines_the_triple {c : Clause} (hd : BW.Proofs.OnePerAssignment.Determined c) (hopt : c.optional = false)
+    {w w' : Window} {t t' : Triple} {m m' : Row} (h : matchClause c w t = some m) (h' : matchClause c w' t' = some m')
+    (he : BW.Proofs.ClauseOrder.RowEq m m') : BW.Proofs.Planner.TripleEq t t' :=
+  BW.Proofs.OnePerAssignment.row_determines_triple hd hopt h h' he
+
+/-- Non-vacuity: `?s "p"@[?t] ?o` is determined; `?s "p"@[,] ?o` is not. -/
+example : BW.Proofs.OnePerAssignment.Determined { sBinding := [63, 115], pID := [112], pAnchorBinding := [63, 116], pTemporal := true, oBinding := [63, 111] } ∧
+    ¬ BW.Proofs.OnePerAssignment.Determined { sBinding := [63, 115], pID := [112], pTemporal := true, oBinding := [63, 111] } := by
+  constructor
+  · exact ⟨Or.inr (Or.inl (by decide)), Or.inr (Or.inr (Or.inr ⟨by decide, Or.inl (by decide)⟩)), Or.inr (Or.inl (by decide))⟩
+  · rintro ⟨_, h, _⟩
+    rcases h with h | h | h | ⟨_, h | h⟩ <;> simp at h
 
 /-! ### Projected onto the selected bindings -/
 
@@ -342,3 +372,5 @@ end BW.Props.C03
 #print axioms BW.Props.C03.from_means_its_tokens
 #print axioms BW.Props.C03.global_bound_means_its_tokens
 #print axioms BW.Props.C03.reference_extends_to_object_bounds
+#print axioms BW.Props.C03.one_row_per_assignment
+#print axioms BW.Props.C03.row_determines_the_triple
